@@ -226,9 +226,9 @@ def node_coq(n, probe_pub="probe_sweep_publishes", two_flag=None):
     elif k == "badwrite":
         p = "(lib_badwrite %s)" % cq_str(n["key"])
     elif k == "rename":
-        p = "(lib_rename %s %s)" % (cq_str(n["a"]), cq_str(n["b"]))
+        p = "(lib_rename none_value_is_noop %s %s)" % (cq_str(n["a"]), cq_str(n["b"]))
     elif k == "delete":
-        p = "(lib_delete %s)" % cq_str(n["a"])
+        p = "(lib_delete none_value_is_noop %s)" % cq_str(n["a"])
     elif k == "template":
         p = "(lib_template %s %s)" % (cq_list(["(%s %s)" % ("Lit" if t == "lit" else "Hole", cq_str(s)) for t, s in n["segs"]]), cq_str(n["out"]))
     elif k == "slice":
@@ -437,7 +437,11 @@ def gen_sweep(rng, elem, stats, need=None):
             div = (ln - 1) if endpoint else ln
             vars_.append((v, ("range", lo, lo + step * div if div else lo + rng.randint(0, 2), ln, endpoint)))
         else:
-            key = rng.choice(["seq", "t_values", "k"])
+            used = [sp[1] for _, sp in vars_ if sp[0] == "ctx"]
+            key = rng.choice([k for k in ["seq", "t_values", "k"] if k not in used] or ["seq"])
+            if key in used:
+                vars_.append((v, ("seq", [rng.randint(-2, 4) for _ in range(ln)])))
+                continue
             vars_.append((v, ("ctx", key)))
             if need is not None and rng.random() < 0.8:
                 need.setdefault(key, [rng.randint(-2, 4) for _ in range(ln)])
